@@ -151,13 +151,28 @@ func (n *Node) KRefKey(typ string) *Node {
 
 // R appends a rule with a literal value.
 func (n *Node) R(name, lit string) *Node {
+	if n.hasRule(name) { // a rule is written once (a second one is refused as a duplicate whatever it says)
+		return n
+	}
 	n.Rules = append(n.Rules, Rule{name, RV{Lit: lit}})
 	n.HasRules = true
 	return n
 }
 
+func (n *Node) hasRule(name string) bool {
+	for _, r := range n.Rules {
+		if r.Name == name {
+			return true
+		}
+	}
+	return false
+}
+
 // RVal appends a rule with an arbitrary value.
 func (n *Node) RVal(name string, v RV) *Node {
+	if n.hasRule(name) {
+		return n
+	}
 	n.Rules = append(n.Rules, Rule{name, v})
 	n.HasRules = true
 	return n
